@@ -4,9 +4,12 @@
    after the service future).  No proofs here (Proofs/WrkFacts.v).
 
    Faithful, not tidy.  What looks odd is the code's:
-   * `Counter::total()` is `load - 1`; in the accept side's send/inc gap the load can be 0:
-     debug builds panic ("attempt to subtract with overflow"), release builds wrap to 2^64-1.
+   * the shared counter is incremented by the accept side AFTER the send (the send/inc gap): the
+     model keeps it (`counter`, `gap`) because the WorkerAvailable wake-ups depend on it; since the
+     repair of D6 `total()` no longer reads it;
    * in `WorkerState::Available` readiness of ALL services is re-checked before EVERY connection;
+   * when the accept side has dropped its handle (conn_rx closed) the worker future resolves only
+     if the stop channel is closed too (repair of D7); otherwise it waits for its stop command;
    * a graceful stop replaces `state` whatever it was (a pending restart is abandoned, a previous
      Shutdown's ack sender is dropped and the timeout starts again);
    * `Counter::dec` wakes the accept loop when the counter leaves `limit + 1` (D1 repaired).
@@ -27,7 +30,7 @@ Inductive sstat := SAvailable | SUnavailable | SFailed | SRestarting | SStopping
 
 Record svc := mkSvc { s_status : sstat; s_ready : list rdy; s_create : list crt }.
 
-Inductive pkind := PRestart | POverflow | PIndex | PFuel.
+Inductive pkind := PRestart | PIndex | PFuel.
 
 Inductive obs :=
 | PollReady (k : nat) (r : rdy)      (* services[k].poll_ready answered r *)
@@ -51,7 +54,6 @@ Inductive wstate :=
 Record cfg := mkCfg {
   c_limit : Z;                              (* max_concurrent_connections *)
   c_timeout : Z;                            (* shutdown_timeout, ms *)
-  c_ovf : bool;                             (* built with overflow checks *)
   c_svcs : list (list rdy * list crt) }.
 
 Record st := mkSt {
@@ -60,6 +62,7 @@ Record st := mkSt {
   cq : list (nat * nat);      (* conn_rx: (token, cid), head = oldest *)
   cq_open : bool;             (* the accept side still holds its sender *)
   sq : list (bool * nat);     (* stop_rx: (graceful, sid) *)
+  sq_open : bool;             (* some WorkerHandleServer (stop sender) is alive *)
   next_sid : nat;
   counter : Z;                (* the raw AtomicUsize (biased by 1) *)
   gap : bool;                 (* accept side has sent a connection but not yet inc'ed *)
@@ -68,22 +71,23 @@ Record st := mkSt {
 
 Inductive op :=
 | PushConn (tok cid : nat) | AcceptInc | PushStop (graceful : bool) | PollW
-| Finish (cid : nat) | Advance (ms : Z) | CloseConn.
+| Finish (cid : nat) | Advance (ms : Z) | CloseConn | CloseStop.
 
-Definition set_ws s x := mkSt x (svcs s) (cq s) (cq_open s) (sq s) (next_sid s) (counter s) (gap s) (inprog s) (now s).
-Definition set_svcs s x := mkSt (ws s) x (cq s) (cq_open s) (sq s) (next_sid s) (counter s) (gap s) (inprog s) (now s).
-Definition set_cq s x := mkSt (ws s) (svcs s) x (cq_open s) (sq s) (next_sid s) (counter s) (gap s) (inprog s) (now s).
-Definition set_open s x := mkSt (ws s) (svcs s) (cq s) x (sq s) (next_sid s) (counter s) (gap s) (inprog s) (now s).
-Definition set_sq s x := mkSt (ws s) (svcs s) (cq s) (cq_open s) x (next_sid s) (counter s) (gap s) (inprog s) (now s).
-Definition set_nsid s x := mkSt (ws s) (svcs s) (cq s) (cq_open s) (sq s) x (counter s) (gap s) (inprog s) (now s).
-Definition set_counter s x := mkSt (ws s) (svcs s) (cq s) (cq_open s) (sq s) (next_sid s) x (gap s) (inprog s) (now s).
-Definition set_gap s x := mkSt (ws s) (svcs s) (cq s) (cq_open s) (sq s) (next_sid s) (counter s) x (inprog s) (now s).
-Definition set_inprog s x := mkSt (ws s) (svcs s) (cq s) (cq_open s) (sq s) (next_sid s) (counter s) (gap s) x (now s).
-Definition set_now s x := mkSt (ws s) (svcs s) (cq s) (cq_open s) (sq s) (next_sid s) (counter s) (gap s) (inprog s) x.
+Definition set_ws s x := mkSt x (svcs s) (cq s) (cq_open s) (sq s) (sq_open s) (next_sid s) (counter s) (gap s) (inprog s) (now s).
+Definition set_svcs s x := mkSt (ws s) x (cq s) (cq_open s) (sq s) (sq_open s) (next_sid s) (counter s) (gap s) (inprog s) (now s).
+Definition set_cq s x := mkSt (ws s) (svcs s) x (cq_open s) (sq s) (sq_open s) (next_sid s) (counter s) (gap s) (inprog s) (now s).
+Definition set_open s x := mkSt (ws s) (svcs s) (cq s) x (sq s) (sq_open s) (next_sid s) (counter s) (gap s) (inprog s) (now s).
+Definition set_sq s x := mkSt (ws s) (svcs s) (cq s) (cq_open s) x (sq_open s) (next_sid s) (counter s) (gap s) (inprog s) (now s).
+Definition set_sqopen s x := mkSt (ws s) (svcs s) (cq s) (cq_open s) (sq s) x (next_sid s) (counter s) (gap s) (inprog s) (now s).
+Definition set_nsid s x := mkSt (ws s) (svcs s) (cq s) (cq_open s) (sq s) (sq_open s) x (counter s) (gap s) (inprog s) (now s).
+Definition set_counter s x := mkSt (ws s) (svcs s) (cq s) (cq_open s) (sq s) (sq_open s) (next_sid s) x (gap s) (inprog s) (now s).
+Definition set_gap s x := mkSt (ws s) (svcs s) (cq s) (cq_open s) (sq s) (sq_open s) (next_sid s) (counter s) x (inprog s) (now s).
+Definition set_inprog s x := mkSt (ws s) (svcs s) (cq s) (cq_open s) (sq s) (sq_open s) (next_sid s) (counter s) (gap s) x (now s).
+Definition set_now s x := mkSt (ws s) (svcs s) (cq s) (cq_open s) (sq s) (sq_open s) (next_sid s) (counter s) (gap s) (inprog s) x.
 
 Definition init (c : cfg) : st :=
   mkSt WUnavailable (map (fun p => mkSvc SUnavailable (fst p) (snd p)) (c_svcs c))
-       [] true [] 0 1%Z false [] 0%Z.
+       [] true [] true 0 1%Z false [] 0%Z.
 
 (* ---------------------------------------------------------------------------------------- *)
 (* counter                                                                                   *)
@@ -94,11 +98,11 @@ Definition init (c : cfg) : st :=
 Definition dec_wakes (c : cfg) (pre : Z) : bool := (pre - 1 =? c_limit c)%Z.
 Definition wake_obs (c : cfg) (pre : Z) : list obs := if dec_wakes c pre then [Wake] else [].
 
-(* `Counter::total()` = load - 1 *)
-Inductive tot := TOverflow | TVal (n : Z).
-Definition total (c : cfg) (s : st) : tot :=
-  if (counter s =? 0)%Z then (if c_ovf c then TOverflow else TVal (2 ^ 64 - 1)%Z)
-  else TVal (counter s - 1)%Z.
+(* `WorkerCounter::total()` = `Rc::strong_count(&self.inner) - 1` = the number of live guards =
+   connections picked up whose service future has not completed (repair of D6; the pinned tree
+   read the shared atomic `load - 1`, which under-counts — and underflows — in the accept side's
+   send/inc gap).  Exact and local to the worker thread; queued connections do not count. *)
+Definition total (s : st) : Z := Z.of_nat (length (inprog s)).
 
 (* ---------------------------------------------------------------------------------------- *)
 (* check_readiness                                                                           *)
@@ -191,16 +195,13 @@ Definition stop_handler (c : cfg) (s : st) : st * list obs * bool :=
   | [] => (s, [], false)
   | (g, sid) :: rest =>
       let s1 := set_sq s rest in
-      match total c s1 with
-      | TOverflow => (panicked s1 [] POverflow, true)
-      | TVal num =>
-          if (num =? 0)%Z then (finish s1 [StopAck sid true], true)
-          else if g then
-            let lost := match ws s1 with WShutdown _ _ sid0 => [StopLost sid0] | _ => [] end in
-            (set_ws (set_svcs s1 (shutdown_svcs false (svcs s1)))
-                    (WShutdown (now s1 + 1000) (now s1) sid), lost, false)
-          else (finish (set_svcs s1 (shutdown_svcs true (svcs s1))) [StopAck sid false], true)
-      end
+      let num := total s1 in
+      if (num =? 0)%Z then (finish s1 [StopAck sid true], true)
+      else if g then
+        let lost := match ws s1 with WShutdown _ _ sid0 => [StopLost sid0] | _ => [] end in
+        (set_ws (set_svcs s1 (shutdown_svcs false (svcs s1)))
+                (WShutdown (now s1 + 1000) (now s1) sid), lost, false)
+      else (finish (set_svcs s1 (shutdown_svcs true (svcs s1))) [StopAck sid false], true)
   end.
 
 (* `WorkerState::Shutdown`: drain the queue, poll the 1 s timer, decide *)
@@ -208,14 +209,14 @@ Definition shutdown_step (c : cfg) (s : st) (dl start : Z) (sid : nat) : st * li
   let '(cnt, o1) := drain c (cq s) (counter s) in
   let s1 := set_counter (set_cq s []) cnt in
   if (now s1 <? dl)%Z then (s1, o1)
-  else match total c s1 with
-       | TOverflow => panicked s1 o1 POverflow
-       | TVal n =>
-           if (n =? 0)%Z then finish (set_ws s1 WUnavailable) (o1 ++ [StopAck sid true])
-           else if (c_timeout c <=? now s1 - start)%Z
-                then finish (set_ws s1 WUnavailable) (o1 ++ [StopAck sid false])
-                else (set_ws s1 (WShutdown (now s1 + 1000) start sid), o1)
-       end.
+  else if (total s1 =? 0)%Z then finish (set_ws s1 WUnavailable) (o1 ++ [StopAck sid true])
+  else if (c_timeout c <=? now s1 - start)%Z
+       then finish (set_ws s1 WUnavailable) (o1 ++ [StopAck sid false])
+       else (set_ws s1 (WShutdown (now s1 + 1000) start sid), o1).
+
+(* `stop_rx.poll_recv` answered Ready(None): every stop sender is gone and nothing is queued *)
+Definition stop_closed (s : st) : bool :=
+  match sq s with [] => negb (sq_open s) | _ => false end.
 
 Definition state_step (c : cfg) (s : st) : st * list obs * next :=
   match ws s with
@@ -246,7 +247,11 @@ Definition state_step (c : cfg) (s : st) : st * list obs * next :=
       match r with
       | CROk true =>
           match cq s1 with
-          | [] => if cq_open s1 then (s1, o, NRet) else (finish s1 o, NRet)
+          | [] =>
+              (* conn_rx closed (the accept thread is gone): resolve only if no stop command can
+                 arrive any more (stop_rx closed and empty), otherwise wait for it *)
+              if cq_open s1 then (s1, o, NRet)
+              else if stop_closed s1 then (finish s1 o, NRet) else (s1, o, NRet)
           | (tok, cid) :: rest =>
               match nth_error (svcs s1) tok with
               | None => (panicked (set_cq s1 rest) o PIndex, NRet)
@@ -311,7 +316,9 @@ Definition step (c : cfg) (s : st) (o : op) : st * list obs :=
       else (s, [])
   | AcceptInc =>
       if gap s then (set_gap (set_counter s (counter s + 1)%Z) false, []) else (s, [])
-  | PushStop g => (set_nsid (set_sq s (sq s ++ [(g, next_sid s)])) (S (next_sid s)), [])
+  | PushStop g =>
+      if sq_open s then (set_nsid (set_sq s (sq s ++ [(g, next_sid s)])) (S (next_sid s)), [])
+      else (s, [])
   | PollW => poll c s
   | Finish cid =>
       (* the spawned task: `f.await` (the stream is dropped with f), then `drop(guard)` *)
@@ -324,6 +331,7 @@ Definition step (c : cfg) (s : st) (o : op) : st * list obs :=
       (* the accept thread exits (its handles are dropped) only after its last dispatch is complete *)
       let s1 := if gap s then set_gap (set_counter s (counter s + 1)%Z) false else s in
       (set_open s1 false, [])
+  | CloseStop => (set_sqopen s false, [])   (* the server side drops its WorkerHandleServer *)
   end.
 
 (* one observation list per executed op; the run ends with the op in which the worker future
